@@ -183,7 +183,7 @@ fn crc_call_reader(alg: &NamedAlg, target: &Shape, input: &[u8]) -> J {
         Err(p) => json!([0, "panic", p]),
     }
 }
-fn crc_call(alg: &NamedAlg, target: &Shape, input: &[u8], take: bool) -> J {
+pub(crate) fn crc_call(alg: &NamedAlg, target: &Shape, input: &[u8], take: bool) -> J {
     use postcard::de_flavors::crc as dc;
     let g = Guarded::from(input, true);
     let buf: &[u8] = unsafe { std::slice::from_raw_parts(g.as_ref().as_ptr(), input.len()) };
